@@ -485,11 +485,13 @@ def add_leaf(p, name, spec):
     return p.add_argument(name, type=build_type(spec))
 
 
-def build_parser(shape, spec, mode):
-    """A fresh parser: --cfg (config option), the setting's key of the given type, a sibling with a default."""
+def build_parser(shape, spec, mode, **parser_kwargs):
+    """A fresh parser: --cfg (config option), the setting's key of the given type, a sibling with a default.
+    `parser_kwargs` override the constructor arguments env_prefix / default_env / prog (history block)."""
     import jsonargparse
 
-    p = jsonargparse.ArgumentParser(exit_on_error=False, parser_mode=mode, env_prefix=ENV_PREFIX, default_env=False)
+    kw = {"env_prefix": ENV_PREFIX, "default_env": False, **parser_kwargs}
+    p = jsonargparse.ArgumentParser(exit_on_error=False, parser_mode=mode, **kw)
     p.add_argument("--cfg", action=jsonargparse.ActionConfigFile)
     if shape == "top":
         add_leaf(p, "--k", spec)
@@ -890,7 +892,8 @@ def case_channels(case, mode):
         # 30 ms per evaluation, and the document passes through the jsonnet interpreter before any type sees it: of the
         # lexical variants only the documents, at one type per position kind (leaf / element / dict value)
         out = [c for c in out if "lex-" not in c[1] or (c[1].startswith("cfg.") and case["type"] in JSONNET_LEX_TYPES)]
-    elif mode == "omegaconf" and case["type"] not in LEX_TYPES_QUICK:
+    elif mode == "omegaconf" and (case.get("quick") or case["type"] not in LEX_TYPES_QUICK):
+        # quick: re-spelled texts under yaml and json only (omegaconf documents pass through the yaml loader first)
         out = [c for c in out if "lex-" not in c[1]]
     return out
 
@@ -902,6 +905,8 @@ def level_for(case, mode):
     """Channel level of a mode: quick - yaml gets ranks <= 2, json / omegaconf one channel per (sub-)family (<= 1),
     jsonnet (30 ms per evaluation) one per coarse family (0); thorough - everything (3), jsonnet <= 1."""
     if case.get("quick"):
+        if mode == "omegaconf" and "multi" not in case and not (case["type"] in JSONNET_TYPES_QUICK or (isinstance(case["type"], str) and case["type"] in SPECIAL)):
+            return 0  # omegaconf reads through the yaml loader: the deeper ranks at the 18 selected types + declarations
         return min({"yaml": 2, "jsonnet": 0}.get(mode, 1), case.get("cap", 3))
     return 1 if mode == "jsonnet" else 3 if mode == "yaml" else min(3, case.get("cap_nonyaml", 3))
 
@@ -1220,8 +1225,18 @@ def classify(spec, v, part, form_cls, shape, only_argv_leaf=False):
 
 
 def run_case(case):
+    if "block" in case:  # undefined keys / parser histories / env and defaults flags: mc/checks/c05_more.py
+        from mc.checks import c05_more
+
+        return c05_more.run_case(case)
     obs, _ = observe_case(case)
     return judge(case, obs)
+
+
+def work_more(case):
+    from mc.checks import c05_more
+
+    return c05_more.work(case)
 
 
 def work(case):
@@ -1398,7 +1413,7 @@ def case_space(ctx):
         for spec in types:
             for v in values_for(spec, quick):
                 c = add(shape, spec, v, modes)
-                if quick and (shape == "top" or spec in binary_only) and not (isinstance(spec, str) and spec in SPECIAL):
+                if quick and (shape in ("top", "classgroup") or spec in binary_only) and not (isinstance(spec, str) and spec in SPECIAL):
                     # quick: the top-level key and the two-argument types that run under yaml only get one channel per
                     # (sub-)family; every channel runs at `nested` for all other types.  Not for the argument
                     # declarations (few cases; the signature of a known deviation there names the deeper channels)
@@ -1467,6 +1482,22 @@ def explore(ctx):
         for name in r["chan_acc"] + r["chan_rej"]:
             chan_runs[name] = chan_runs.get(name, 0) + 1
         ctx.deviations_from(r["case"], r["devs"])
+    # the three further blocks (mc/checks/c05_more.py): undefined keys, parsers with a history, env / defaults flags
+    from mc.checks import c05_more
+
+    more = c05_more.cases(ctx.quick)
+    more.sort(key=lambda c: (len(json.dumps(c)), json.dumps(c, sort_keys=True)))
+    mstat = {b: {"cases": 0, "parses": 0, "accepted": 0, "rejected": 0, "some_acc": 0, "all_rej": 0} for b in ("undef", "hist", "flags")}
+    for r in ctx.pmap(work_more, more):
+        st = mstat[r["case"]["block"]]
+        st["cases"] += 1
+        for k in ("parses", "accepted", "rejected"):
+            st[k] += r[k]
+        st["some_acc"] += bool(r["accepted"])
+        st["all_rej"] += not r["accepted"]
+        ctx.deviations_from(r["case"], r["devs"])
+    n_more = sum(st["cases"] for st in mstat.values())
+    parses_more = sum(st["parses"] for st in mstat.values())
     for c in (cases[0], cases[len(cases) // 2], cases[-1]):
         ctx.sample(c)
     mid = cases[len(cases) // 3]
@@ -1490,11 +1521,18 @@ def explore(ctx):
     ctx.count("cases_with_lexical_variants", lex_cases)
     ctx.count("observations_of_lexical_variants", lex_obs)
     ctx.count("observations_of_lexical_variants_accepted", lex_acc)
+    for b, st in mstat.items():
+        ctx.count(f"block_{b}_cases", st["cases"])
+        ctx.count(f"block_{b}_parses", st["parses"])
+        ctx.count(f"block_{b}_observations_accepted", st["accepted"])
+        ctx.count(f"block_{b}_observations_rejected", st["rejected"])
+    for b in ("undef", "hist", "flags"):
+        ctx.sample(next(c for c in more if c["block"] == b and len(json.dumps(c)) > 120))
     ctx.cover(
-        evaluations=n,
-        states=n,
-        transitions=parses,
-        traces_validated_against_impl=parses,
+        evaluations=n + n_more,
+        states=n + n_more,
+        transitions=parses + parses_more,
+        traces_validated_against_impl=parses + parses_more,
         distinct_nontrivial=len(nontrivial),
         rule="one case = (parser shape, type hint, JSON value) with the value textually unambiguous at the type "
         "(rule U, see in_space); it is rendered through every channel under every parser_mode, each parse on a fresh "
@@ -1503,7 +1541,13 @@ def explore(ctx):
         "Two further blocks: (a) two settings in one branch (the key and its sibling), rendered in both orders on the "
         "command line, in the environment and through EVERY cut of the two key paths into dotted / nested segments in "
         "one mapping; (b) lexical variants: the same JSON value with its numbers in every exponent spelling of the "
-        "stated variant grid and its strings as \\uXXXX escapes, in documents and as command line / environment text.",
+        "stated variant grid and its strings as \\uXXXX escapes, in documents and as command line / environment text; "
+        "(c) undefined keys: every name derived from the parser's own names (proper prefixes, extensions, case variants, "
+        "names of another level, an unrelated name, a key below a leaf, non-mapping values at branch keys) at every branch, "
+        "through the command line and every document / object cut; (d) parsers with a history: every sequence of <= L "
+        "uses / documented re-configurations / registration as a sub-command before the parse, against a parser built "
+        "directly in the final configuration; (e) env=True x defaults in {True, False} x entry point x every split of "
+        "two settings between the environment and another carrier.",
         exhaustive=True,
         caps_hit=[],
         bounds={
@@ -1520,6 +1564,14 @@ def explore(ctx):
             ],
             "lexical_blocks": [{"shape": sh, "types": len(t), "modes": ms} for sh, t, ms in plan_lex(ctx.quick)],
             "lexical_number_variants": len(float_variants(ctx.quick)),
+            "undefined_key_block": {"shapes": c05_more.UNDEF_SHAPES_QUICK if ctx.quick else c05_more.UNDEF_SHAPES,
+                                    "keys_per_shape": {sh: len(c05_more.undef_keys(sh)) for sh in c05_more.UNDEF_SHAPES},
+                                    "values": c05_more.UNDEF_VALUES_QUICK + ([] if ctx.quick else c05_more.UNDEF_VALUES_MORE),
+                                    "values_at_branch_keys": c05_more.BRANCH_VALUES, "allow_abbrev": False},
+            "history_block": {"operations": c05_more.HIST_USES + c05_more.HIST_RECONF, "max_length": 2 if ctx.quick else 3,
+                              "histories_of_length_2": len(c05_more.hist_histories(2))},
+            "flags_block": {"shapes": c05_more.FLAG_SHAPES_QUICK if ctx.quick else c05_more.FLAG_SHAPES, "env": True,
+                            "defaults": [True, False], "splits": ["none", "k", "j", "both"]},
         },
         spelling_classes=sorted(spelling_classes),
         lexical_variants_seen=sorted(lex_names),
@@ -1545,3 +1597,12 @@ def explore(ctx):
     ctx.require(len(spelling_classes) == 8, f"all eight structural classes of a two-key mapping occur ({sorted(spelling_classes)})")
     ctx.require(lex_cases >= 100 and lex_obs >= 2000 and lex_acc >= 500 and len(lex_names) >= 30,
                 "lexical block: >= 100 cases, >= 2000 parses of a re-spelled text, >= 500 of them accepted, >= 30 distinct variants")
+    ctx.assume("an environment variable that names no argument is ignored by design: undefined keys are judged on the "
+               "command line and in documents / objects only; abbreviations are off (allow_abbrev=False) in that block")
+    u, h, f = mstat["undef"], mstat["hist"], mstat["flags"]
+    ctx.require(u["cases"] >= 300 and u["parses"] >= 3000 and u["rejected"] >= 3000,
+                "undefined-key block: >= 300 cases, >= 3000 parses, >= 3000 rejections observed")
+    ctx.require(h["cases"] >= 400 and h["accepted"] >= 3000 and len({json.dumps(c["history"]) for c in more if c["block"] == "hist"}) >= 150,
+                "history block: >= 400 cases, >= 150 distinct histories, >= 3000 accepted observations")
+    ctx.require(f["cases"] >= 150 and f["some_acc"] >= 60 and f["all_rej"] >= 20 and f["parses"] >= 3000,
+                "flags block: >= 150 cases, >= 60 with an accepted and >= 20 with an everywhere rejected pair of settings")
